@@ -135,12 +135,19 @@ int main(int argc, char **argv) {
     }
     remove("naunet_error_record.txt");
     Naunet n;
-    if (n.Init(1, 1e-20, 1e-5, 500) != NAUNET_SUCCESS) { printf("init-failed\n"); return 2; }
-    realtype ab[NEQUATIONS];
-    for (int i = 0; i < NEQUATIONS; i++) ab[i] = y0;
-    NaunetData data;
-    int flag = n.Solve(ab, dt, &data);
+    // argv[4] (cuSPARSE variant only): the number of systems of the batch; every system starts at y0
+    const int nsys = argc > 4 ? atoi(argv[4]) : 1;
+    if (n.Init(nsys, 1e-20, 1e-5, 500) != NAUNET_SUCCESS) { printf("init-failed\n"); return 2; }
+    std::vector<realtype> abv((size_t)NEQUATIONS * nsys, y0);
+    realtype *ab = abv.data();
+    std::vector<NaunetData> datav(nsys);
+    int flag = n.Solve(ab, dt, datav.data());
     n.Finalize();
+    if (nsys > 1) {      // the batch: smallest and largest final state over all systems and equations
+        double lo = ab[0], hi = ab[0];
+        for (double v : abv) { if (v < lo) lo = v; if (v > hi) hi = v; }
+        printf("batch %.17g %.17g\n", lo, hi);
+    }
     // was the initial state logged?
     // was the initial state logged, and with which value?
     int logged = 0;
